@@ -25,7 +25,7 @@ func (runInfo *runInfoStruct) funcExpr() {
 
 		// add Params to newEnv
 		for i, param := range funcExpr.Params {
-			runInfo.env.DefineValue(param, args[i])
+			runInfo.env.DefineValue(param, detach(args[i]))
 		}
 		if verifOn {
 			defer verifFunc(&runInfo, funcExpr)()
